@@ -1,4 +1,5 @@
 """Per-property scenario families (stages) for quick and thorough tiers."""
+import os
 import random
 
 from runner import Stage
@@ -73,12 +74,16 @@ def c12_stages(tier):
     st = [Stage('arena-k2c5', 'Trace_Arena', mc=('MC_Arena', 'MC_Arena_k2c5.cfg'), nontrivial=arena_nontrivial),
           Stage('arena-k3c4', 'Trace_Arena', mc=('MC_Arena', 'MC_Arena_k3c4.cfg'), nontrivial=arena_nontrivial),
           Stage('arena-k2c4r', 'Trace_Arena', mc=('MC_Arena', 'MC_Arena_k2c4r.cfg'), nontrivial=arena_nontrivial),
+          Stage('arena-k2c4v2', 'Trace_Arena', mc=('MC_Arena', 'MC_Arena_k2c4v2.cfg'), nontrivial=arena_nontrivial),
           Stage('arena-random', 'Trace_Arena', gen=arena_random, nontrivial=arena_nontrivial),
           Stage('arena-grown', 'Trace_Arena', gen=arena_grown, nontrivial=arena_nontrivial)]
     if tier == 'thorough':
         st += [Stage('arena-k2c6', 'Trace_Arena', mc=('MC_Arena', 'MC_Arena_k2c6.cfg'), nontrivial=arena_nontrivial, mc_workers=12),
-               Stage('arena-k3c5', 'Trace_Arena', mc=('MC_Arena', 'MC_Arena_k3c5.cfg'), nontrivial=arena_nontrivial, mc_workers=12),
-               Stage('arena-k2c5v2', 'Trace_Arena', mc=('MC_Arena', 'MC_Arena_k2c5v2.cfg'), nontrivial=arena_nontrivial, mc_workers=12)]
+               Stage('arena-k3c5', 'Trace_Arena', mc=('MC_Arena', 'MC_Arena_k3c5.cfg'), nontrivial=arena_nontrivial, mc_workers=12)]
+        # two payload values on 5 slots: 40 588 states / 1.95 M transitions, about 35 min of replay + validation on its own;
+        # together with k2c6 and k3c5 that is more than an hour, so it is opt-in (the two-value instance k2c4v2 runs in the quick tier)
+        if os.environ.get('VERIF_ARENA_V2') == '1':
+            st.append(Stage('arena-k2c5v2', 'Trace_Arena', mc=('MC_Arena', 'MC_Arena_k2c5v2.cfg'), nontrivial=arena_nontrivial, mc_workers=12))
     return st
 
 
